@@ -142,6 +142,16 @@ def slices(prop, tier, seed):
         S.append(("S-cond-plan", W.s_cond(bp, seed, resolve_modes=(False, True),
                                           clusters=("1x2",), releases=("one",),
                                           runtimes=(1,))))
+    elif prop == "C18":
+        S += dag(g, g3, seed, th)
+        S.append(("S-cond", W.s_cond(gp, seed, clusters=("1x2", "2p"),
+                                     releases=("two@0",))))
+        S.append(("S-plan", W.s_plan(pp if th else pp_small, seed,
+                                     max_n=3 if th else 2)))
+        S.append(("S-zero", W.s_zero(gp, seed)))
+        if th:
+            S.append(("S-time", W.s_time(gp, seed)))
+            S.append(("S-closed", W.s_closed(g, seed)))
     else:
         raise ValueError(prop)
     return S
@@ -154,6 +164,7 @@ REQUIRED = {
     "C05": ("ended_by_exhaustion",),
     "C06": ("cancellations", "graphs_finished", "dead_tasks"),
     "C07": ("conditional_completions",),
+    "C18": ("offers", "offered_tasks"),
 }
 
 BUDGET = {"quick": 240, "thorough": 2400}
@@ -171,10 +182,11 @@ def with_bounds(sl, tier):
     return [(n, gen(it)) for n, it in sl]
 
 
-def main(prop, tier, seed, extra_factory=None, props=None):
-    run_e1(prop, tier, seed, with_bounds(slices(prop, tier, seed), tier), props=props,
+def main(prop, tier, seed, extra_factory=None, props=None, finish=True):
+    return run_e1(prop, tier, seed, with_bounds(slices(prop, tier, seed), tier), props=props,
            extra_factory=extra_factory, conformance=conformance_set(seed),
-           budget_s=BUDGET[tier], tape_bound=TAPE_BOUND[tier], required_stats=REQUIRED.get(prop, ()),
+           budget_s=BUDGET[tier], tape_bound=TAPE_BOUND[tier], finish=finish,
+           required_stats=REQUIRED.get(prop, ()),
            assumptions=[
                "bounded closed worlds (see worlds_per_slice); bundled policies only",
                "in-process main.main() == fresh `python main.py` (checked by the "
